@@ -267,7 +267,7 @@ CLIP_VARIANTS = [
 
 def n_variants(kind, name, clip=False):
     if kind == 'fresh':
-        return 8
+        return 24
     if clip and kind in ('mulp', 'mulc') and name not in ('Rotate', 'Flip'):
         return len(CLIP_VARIANTS) * (2 if name == 'Pupil' else 1)
     if kind == 'mulp':
@@ -324,7 +324,12 @@ def build_plane(lentil, kind, name, v, clip=False, po=None, reg=REG0, mism=False
                 if name not in PTYPES:
                     raise GeneratorError(f'unknown plane type {name!r}')
                 pcls = _plane_subclass(lentil, lentil.Plane) if (v // 3) % 3 == 2 else lentil.Plane
-                return pcls(ptype=(name if v % 2 else getattr(lentil, name)), **samp())
+                kw = samp()
+                if (v // 5) % 2 and 'amp' not in kw:
+                    # positionally, in the documented order (amplitude, opd, mask, pixelscale, diameter, ptype)
+                    return pcls(kw.get('amplitude', 1), kw.get('opd', 0), kw.get('mask'), kw.get('pixelscale'),
+                                None, (name if v % 2 else getattr(lentil, name)))
+                return pcls(ptype=(name if v % 2 else getattr(lentil, name)), **kw)
             cls = getattr(lentil, name)
             if (v // 3) % 3 == 2:
                 cls = _plane_subclass(lentil, cls)       # a user subclass that leaves everything alone
@@ -337,12 +342,16 @@ def build_plane(lentil, kind, name, v, clip=False, po=None, reg=REG0, mism=False
                 x, y = [t * ta / TILT_A for t in TILT_VARIANTS[v % len(TILT_VARIANTS)]]
                 if not clip and v >= len(TILT_VARIANTS):
                     return cls(x=x, y=y, **samp(v - len(TILT_VARIANTS)), **okw)
+                if v % 2 and not clip:
+                    return cls(x, y, **bare(), **okw)          # positionally
                 return cls(x=x, y=y, **(samp() if clip else bare()), **okw)
             if name in ('DispersiveTilt', 'Grism'):
                 tr, di = DISP_VARIANTS[v % len(DISP_VARIANTS)]
                 di = [di[0], reg[1]] if di[1] else di      # reference wavelength = the wavefronts'
                 if not clip and v >= len(DISP_VARIANTS):
                     return cls(trace=list(tr), dispersion=list(di), **samp(v - len(DISP_VARIANTS)), **okw)
+                if v % 2 and not clip:
+                    return cls(list(tr), list(di), **bare(), **okw)     # positionally
                 return cls(trace=list(tr), dispersion=list(di), **(samp() if clip else bare()), **okw)
             if name == 'Rotate':
                 return cls(**ROT_VARIANTS[v % len(ROT_VARIANTS)], **okw)
@@ -449,7 +458,19 @@ def build_wavefront(lentil, wt, body, v=0, reg=REG0):
         u = sub('star', wl, **kw2) if sub.__name__ == 'WfSubExtra' else sub(wl, **kw2)
         u.data, u.shape = w.data, w.shape
         w = u
-    w.ptype = wt if v % 2 else getattr(lentil, wt)      # both documented forms of a plane type
+    how = (v // 8) % 3
+    if how and sub is None:
+        # the type handed to the constructor instead of the setter: by keyword, or positionally in the
+        # documented order (wavelength, pixelscale, diameter, focal_length, tilt, ptype)
+        pt = wt if v % 2 else getattr(lentil, wt)
+        if how == 1:
+            u = lentil.Wavefront(wl, ptype=pt, **kw)
+        else:
+            u = lentil.Wavefront(wl, kw.get('pixelscale'), None, kw.get('focal_length'), None, pt)
+        u.data, u.shape = w.data, w.shape
+        w = u
+    else:
+        w.ptype = wt if v % 2 else getattr(lentil, wt)      # both documented forms of a plane type
     if state_of(w) != (wt, body):
         raise GeneratorError(f'could not build a wavefront in state ({wt}, {body}): got {state_of(w)}')
     return w
@@ -470,10 +491,14 @@ def do_propagate(lentil, m, w, v, reg=REG0):
         if m == 'dft':
             form, os_, shape = _prop_args(DFT_VARIANTS, v)
             du = 5e-6 * os_ if reg[2] else _du(reg, form, os_)     # loose + untyped: must be refused on its type alone
+            if v % 3 == 2:
+                return lentil.propagate_dft(w, du, shape, None, os_)           # positionally
             return lentil.propagate_dft(w, pixelscale=du, shape=shape, oversample=os_)
         if m == 'fft':
             form, os_, shape = _prop_args(FFT_VARIANTS, v)
             du = 5e-6 * os_ if reg[2] else _du(reg, form, os_)
+            if v % 3 == 2:
+                return lentil.propagate_fft(w, du, shape, os_)                 # positionally
             return lentil.propagate_fft(w, pixelscale=du, shape=shape, oversample=os_)
     raise GeneratorError(f'unknown propagation method {m!r}')
 
@@ -557,7 +582,7 @@ def observe_all():
             for reg in regs:
                 for wv0 in ((0, 1) if st[1] == 'empty' else (v % 2,)):
                     j += 1
-                    wv = wv0 + 2 * ((j // 2) % 4)        # lentil.Wavefront and the user subclasses of it
+                    wv = wv0 + 2 * ((j // 2) % 4) + 8 * ((j // 3) % 3)   # class of the object, how it got its type
                     pr, wr = ROUTES_P[j % len(ROUTES_P)], ROUTES_W[(j + j // 5) % len(ROUTES_W)]
                     outr = ROUTES_W[(j + 1 + j // 4) % len(ROUTES_W)]
                     w = route(build_wavefront(lentil, st[0], st[1], wv, reg), wr)
@@ -643,6 +668,15 @@ def observe_all():
                             f'was used before with a {w0} wavefront{" and then copied" if via_copy else ""} gives {o}: '
                             f'the outcome is not a function of the types')
     obs['history_observations'] = n_hist
+
+    # ---- construction order: after everything above was built (every class with every override, amplitude,
+    # mask, pixel scale ...) a default instance of every class must still carry the ptype it carried at first
+    for k in classes:
+        for v in (0, 1):
+            now = ptype_name(build_plane(lentil, 'mulc', k, v).ptype)
+            if now != obs['class_ptype'][k]:
+                raise GeneratorError(f'a default {k} instance carried ptype {obs["class_ptype"][k]} when built first and '
+                                     f'carries {now} after other planes were built: state shared between objects')
 
     # implementation-defined facts about tilt (see Model/PType.v:doc_machine)
     obs['class_tilts'] = {}
@@ -767,6 +801,26 @@ def generate():
     write_if_changed(OUT, render(obs))
     return obs
 
+
+if __name__ == '__main__' and len(sys.argv) > 2 and sys.argv[1] == '--pickle':
+    # used by harness/props/c08.py:pregen - always leaves a pickle: the observation or the refusal, and the
+    # (class, ptype) override pairs the constructors take (probed first, each pair on its own)
+    _l = C.import_lentil()
+    _ov = []
+    for _k in class_names(_l):
+        for _p in PTYPES:
+            try:
+                if accepts_override(_l, _k, _p):
+                    _ov.append((_k, _p))
+            except GeneratorError:
+                _ov.append((_k, _p))
+    _o, _err = None, None
+    try:
+        _o = generate()
+    except GeneratorError as _e:
+        _err = str(_e).replace('\n', ' ')
+    pickle.dump({'obs': _o, 'overrides': _ov, 'error': _err}, open(sys.argv[2], 'wb'))
+    sys.exit(0)
 
 if __name__ == '__main__':
     o = generate()
